@@ -639,7 +639,11 @@ func (t *glTr) call(x *ast.CallExpr) (string, bool) {
 			}
 		}
 		cs, ps := t.exprs(x.Args)
-		c, p := t.seq(cs, ps, func(s []string) string { return "(" + sig.callee() + " " + strings.Join(s, " ") + ")" })
+		pre := strings.Join(t.recPrefix(name, sig), " ")
+		if pre != "" {
+			pre += " "
+		}
+		c, p := t.seq(cs, ps, func(s []string) string { return "(" + sig.callee() + " " + pre + strings.Join(s, " ") + ")" })
 		if p {
 			return c, false
 		}
@@ -2475,13 +2479,16 @@ func extractGoLean() {
 		std := "(s t : Bytes) (n : Int) (b : Bool)"
 		ret := "(Bytes × Int × Bool)"
 		var fs []glFunc
-		for _, name := range []string{"ShortAnd", "ShortOr", "EvalOrder", "ByteWrap", "LoopCtl", "RangeIdx", "SwitchTag", "SwitchBare", "SliceBounds", "Nested", "Named", "put", "PtrParam", "Swap", "DivMod", "StrOps", "IfInit", "Iota", "Bits", "Down", "Appends", "RangeVal", "Store"} {
+		for _, name := range []string{"Recur", "ShortAnd", "ShortOr", "EvalOrder", "ByteWrap", "LoopCtl", "RangeIdx", "SwitchTag", "SwitchBare", "SliceBounds", "Nested", "Named", "put", "PtrParam", "Swap", "DivMod", "StrOps", "IfInit", "Iota", "Bits", "Down", "Appends", "RangeVal", "Store"} {
 			f := glFunc{File: "@verif/harness/trtest/trtest.go", Name: name, Args: std, Ret: ret}
 			if name == "put" {
 				f.Args, f.Ret, f.Ptr = "(buf : Bytes) (c : UInt8)", "Bytes", map[string]bool{"buf": true}
 			}
 			if name == "RangeVal" {
 				f.Ptr = map[string]bool{"range-bytes:bs": true}
+			}
+			if name == "Recur" {
+				f.Rec = true
 			}
 			fs = append(fs, f)
 		}
